@@ -1,4 +1,5 @@
 use std::env;
+use std::future::Future;
 use std::sync::Arc;
 
 use anyhow::anyhow;
@@ -61,23 +62,16 @@ pub async fn main() -> anyhow::Result<()> {
 async fn startup(config: ServerConfig<SslConfig>) {
     match config.protocol {
         Protocol::Shadowsocks => shadowsocks::startup(&config).await,
-        Protocol::VMess => {
-            merge_result(tokio::join!(startup_quic(&config, &config, vmess::new_codec), startup_tcp(&config, &config, vmess::new_codec)))
-        }
-        Protocol::Trojan => {
-            merge_result(tokio::join!(startup_quic(&config, &config, trojan::new_codec), startup_tcp(&config, &config, trojan::new_codec)))
-        }
+        Protocol::VMess => both(startup_quic(&config, &config, vmess::new_codec), startup_tcp(&config, &config, vmess::new_codec)).await,
+        Protocol::Trojan => both(startup_quic(&config, &config, trojan::new_codec), startup_tcp(&config, &config, trojan::new_codec)).await,
     }
     .unwrap_or_else(|e| error!("Startup {} failed; error={}", config.protocol, e));
 }
 
-fn merge_result(res: (anyhow::Result<()>, anyhow::Result<()>)) -> anyhow::Result<()> {
-    match res {
-        (Ok(_), Ok(_)) => Ok(()),
-        (Ok(_), Err(e)) => Err(anyhow!("tcp={e}")),
-        (Err(e), Ok(_)) => Err(anyhow!("quic={e}")),
-        (Err(e1), Err(e2)) => Err(anyhow!("quic={e1}, tcp={e2}")),
-    }
+/// Runs the QUIC and the TCP listener of one entry; a listener that fails to start ends the entry with its error at
+/// once instead of being forgotten while the other one keeps serving.
+async fn both(quic: impl Future<Output = anyhow::Result<()>>, tcp: impl Future<Output = anyhow::Result<()>>) -> anyhow::Result<()> {
+    tokio::try_join!(async { quic.await.map_err(|e| anyhow!("quic={e}")) }, async { tcp.await.map_err(|e| anyhow!("tcp={e}")) }).map(|_| ())
 }
 
 async fn startup_tcp<RefContext, Context, NewCodec, Codec>(
